@@ -13,8 +13,9 @@
       hypothesis left);
     - [merge_file_kvrel_as_stated_false], [merge_kvrel_as_stated_false]: the
       statements as first proposed are false (offsets unconstrained);
-    - FINDING [merge_failed_rewrite_loses_data]: the modelled Merge drops the
-      old file even when its rewrite transaction was rejected;
+    - [merge_file_failed_keeps_records], [merge_failed_rewrite_keeps_data]: a
+      step of Merge whose rewrite transaction is rejected keeps the old file
+      (the former finding merge_failed_rewrite_loses_data is gone);
     - remark [merge_breaks_idx_on_disk_and_inv]. *)
 From Coq Require Import Sorted.
 From Verif Require Import Bytes BytesFacts Codec Dec ListDS ListFacts SetDS ZSetDS Index Engine Spec TxFacts IndexFacts ReplayFacts KVRefine Merge.
@@ -267,23 +268,29 @@ Definition drop_file (w2 : world) (fid : N) (x : txs) : world :=
   mkW (w_opts w2) (w_closed w2) (disk_remove (w_disk w2) fid) (w_maxfid w2) (w_woff w2) (w_asize w2)
       (w_ix w2) (w_committed w2) x.
 
+(** when the rewrite transaction is rejected nothing was written ([do_commit_false]):
+    the world is the one with the fresh (empty) active file, the old file stays,
+    and the flag is false *)
 Lemma merge_file_eq : forall now w fid txid,
   merge_file now w fid txid =
   match disk_get (w_disk w) fid with
-  | None => w
+  | None => (w, true)
   | Some seg =>
       match merge_pend now w fid txid seg with
-      | [] => if fid =? w_maxfid w then w else drop_file w fid (w_tx w)
-      | pend => drop_file (fst (do_commit None (new_file w) (mkTx txid true pend))) fid (w_tx w)
+      | [] => (if fid =? w_maxfid w then w else drop_file w fid (w_tx w), true)
+      | pend => if snd (do_commit None (new_file w) (mkTx txid true pend))
+                then (drop_file (fst (do_commit None (new_file w) (mkTx txid true pend))) fid (w_tx w), true)
+                else (new_file w, false)
       end
   end.
 Proof.
   intros now w fid txid. unfold merge_file. destruct (disk_get (w_disk w) fid) as [seg|]; [|reflexivity].
   change (map _ (filter _ seg)) with (merge_pend now w fid txid seg).
-  destruct (merge_pend now w fid txid seg) as [|e0 rest]; [reflexivity|].
+  destruct (merge_pend now w fid txid seg) as [|e0 rest]; [destruct (fid =? w_maxfid w); reflexivity|].
   change (mkW (w_opts w) (w_closed w) (disk_create (w_disk w) (w_maxfid w + 1)) (w_maxfid w + 1) 0 0
               (w_ix w) (w_committed w) (w_tx w)) with (new_file w).
-  destruct (do_commit None (new_file w) (mkTx txid true (e0 :: rest))) as [w2 ok]. reflexivity.
+  destruct (do_commit None (new_file w) (mkTx txid true (e0 :: rest))) as [w2 ok] eqn:Ec. cbn [fst snd].
+  destruct ok; [reflexivity|]. rewrite (do_commit_false _ _ _ Ec). reflexivity.
 Qed.
 
 (** ------------------------------------------------------------------ *)
@@ -296,7 +303,7 @@ Qed.
     and the freshness of [txid] are NOT needed for this step. *)
 Theorem merge_file_kvrel_corrected : forall now w s fid txid,
   kvrel w s -> idx_loc_sound w -> idx_latest w ->
-  kvrel (merge_file now w fid txid) s.
+  kvrel (fst (merge_file now w fid txid)) s.
 Proof.
   intros now w s fid txid Hrel Hloc Hlat. rewrite merge_file_eq.
   destruct (disk_get (w_disk w) fid) as [seg|] eqn:Eseg; [|exact Hrel].
@@ -305,17 +312,16 @@ Proof.
     destruct He' as [pe [Epe Hpe]]. subst e'. apply filter_In in Hpe. destruct Hpe as [Hin Hkeep].
     exact (kept_entry_noop now w s fid seg txid pe Hrel Hloc Hlat Eseg Hin Hkeep). }
   destruct (merge_pend now w fid txid seg) as [|e0 rest] eqn:Epend.
-  - destruct (fid =? w_maxfid w); [exact Hrel|]. intros b. exact (Hrel b).
-  - assert (Hrel1 : kvrel (new_file w) s) by (intros b; exact (Hrel b)).
-    assert (Hrel2 : kvrel (fst (do_commit None (new_file w) (mkTx txid true (e0 :: rest)))) s).
-    { destruct (do_commit None (new_file w) (mkTx txid true (e0 :: rest))) as [w2 ok] eqn:Ec.
-      destruct ok.
-      - pose proof (commit_kvrel (new_file w) s (mkTx txid true (e0 :: rest)) Hrel1) as H.
-        rewrite Ec in H. cbn [tx_id tx_pend fst snd] in H.
-        rewrite fold_spec_noop in H.
-        + apply H; [|reflexivity]. eapply Forall_impl; [|exact Hall]. intros e [A _]. exact A.
-        + eapply Forall_impl; [|exact Hall]. intros e [_ B]. exact B.
-      - cbn [fst]. rewrite (do_commit_false _ _ _ Ec). exact Hrel1. }
+  - cbn [fst]. destruct (fid =? w_maxfid w); [exact Hrel|]. intros b. exact (Hrel b).
+  - cbv beta iota zeta. assert (Hrel1 : kvrel (new_file w) s) by (intros b; exact (Hrel b)).
+    destruct (do_commit None (new_file w) (mkTx txid true (e0 :: rest))) as [w2 ok] eqn:Ec.
+    cbn [fst snd]. destruct ok; cbn [fst]; [|exact Hrel1].
+    assert (Hrel2 : kvrel w2 s).
+    { pose proof (commit_kvrel (new_file w) s (mkTx txid true (e0 :: rest)) Hrel1) as H.
+      rewrite Ec in H. cbn [tx_id tx_pend fst snd] in H.
+      rewrite fold_spec_noop in H.
+      + apply H; [|reflexivity]. eapply Forall_impl; [|exact Hall]. intros e [A _]. exact A.
+      + eapply Forall_impl; [|exact Hall]. intros e [_ B]. exact B. }
     intros b. exact (Hrel2 b).
 Qed.
 
@@ -650,26 +656,65 @@ Qed.
     one or carries that id *)
 Theorem merge_file_minv : forall now w fid txid,
   MInv w -> ~ In txid (ids_of (recs w)) ->
-  MInv (merge_file now w fid txid) /\
-  (forall r, In r (recs (merge_file now w fid txid)) -> In r (recs w) \/ e_txid (snd r) = txid).
+  MInv (fst (merge_file now w fid txid)) /\
+  (forall r, In r (recs (fst (merge_file now w fid txid))) -> In r (recs w) \/ e_txid (snd r) = txid).
 Proof.
   intros now w fid txid HM Hfresh. rewrite merge_file_eq.
   destruct (disk_get (w_disk w) fid) as [seg|] eqn:Eseg; [|split; [exact HM|intros r Hr; left; exact Hr]].
   assert (Hfid : fid <= w_maxfid w) by (apply (mi_max w HM); exact (disk_get_some_in _ _ _ Eseg)).
   destruct (merge_pend now w fid txid seg) as [|e0 rest] eqn:Epend.
-  - destruct (fid =? w_maxfid w) eqn:E; [split; [exact HM|intros r Hr; left; exact Hr]|].
+  - cbn [fst]. destruct (fid =? w_maxfid w) eqn:E; [split; [exact HM|intros r Hr; left; exact Hr]|].
     split.
     + apply drop_file_minv; [exact HM|lia].
     + intros r Hr. left. unfold recs in Hr. cbn [drop_file w_disk] in Hr. exact (in_recs_remove _ _ _ Hr).
-  - destruct (new_file_minv w HM) as [HM1 Hrecs1].
+  - cbv beta iota zeta. destruct (new_file_minv w HM) as [HM1 Hrecs1].
     destruct (commit_minv (new_file w) (mkTx txid true (e0 :: rest)) HM1) as (HM2 & Hsub & Hmono).
     + cbn [tx_id]. rewrite Hrecs1. exact Hfresh.
     + cbn [tx_id tx_pend]. rewrite <- Epend. apply Forall_forall. intros e He.
       exact (merge_pend_txid _ _ _ _ _ _ He).
-    + cbn [new_file w_maxfid] in Hmono. cbn [tx_id] in Hsub. split.
-      * apply drop_file_minv; [exact HM2|lia].
-      * intros r Hr. unfold recs in Hr. cbn [drop_file w_disk] in Hr. apply in_recs_remove in Hr.
-        destruct (Hsub r Hr) as [H|H]; [left; rewrite <- Hrecs1; exact H|right; exact H].
+    + cbn [new_file w_maxfid] in Hmono. cbn [tx_id] in Hsub.
+      destruct (do_commit None (new_file w) (mkTx txid true (e0 :: rest))) as [w2 ok].
+      cbn [fst snd] in *. destruct ok; cbn [fst].
+      * split.
+        -- apply drop_file_minv; [exact HM2|lia].
+        -- intros r Hr. unfold recs in Hr. cbn [drop_file w_disk] in Hr. apply in_recs_remove in Hr.
+           destruct (Hsub r Hr) as [H|H]; [left; rewrite <- Hrecs1; exact H|right; exact H].
+      * split; [exact HM1|]. intros r Hr. left. rewrite <- Hrecs1. exact Hr.
+Qed.
+
+(** NO LOSS ON FAILURE: a step of Merge whose rewrite transaction is rejected
+    (flag false) removes nothing: every record of the old log is still on disk *)
+Lemma in_recs_create : forall d f x, In x (all_records d) -> In x (all_records (disk_create d f)).
+Proof.
+  intros d f [[g p] e] H. unfold disk_create. destruct (disk_get d f); [exact H|].
+  apply in_all_records in H. destruct H as [s [Hs Hin]]. apply in_all_records. exists s.
+  split; [|exact Hin]. rewrite disk_get_app, Hs. reflexivity.
+Qed.
+
+Lemma merge_file_failed_keeps_records : forall now w fid txid,
+  snd (merge_file now w fid txid) = false ->
+  forall r, In r (recs w) -> In r (recs (fst (merge_file now w fid txid))).
+Proof.
+  intros now w fid txid. rewrite merge_file_eq.
+  destruct (disk_get (w_disk w) fid) as [seg|]; [|intros H; discriminate H].
+  destruct (merge_pend now w fid txid seg) as [|e0 rest]; [intros H; discriminate H|].
+  cbv beta iota zeta.
+  destruct (snd (do_commit None (new_file w) (mkTx txid true (e0 :: rest)))); [intros H; discriminate H|].
+  intros _ r Hr. cbn [fst]. unfold recs. cbn [new_file w_disk]. apply in_recs_create. exact Hr.
+Qed.
+
+(** ... and a failed step leaves every data file in place with its contents *)
+Lemma merge_file_failed_keeps_files : forall now w fid txid,
+  snd (merge_file now w fid txid) = false ->
+  forall f s, disk_get (w_disk w) f = Some s -> disk_get (w_disk (fst (merge_file now w fid txid))) f = Some s.
+Proof.
+  intros now w fid txid. rewrite merge_file_eq.
+  destruct (disk_get (w_disk w) fid) as [seg|]; [|intros H; discriminate H].
+  destruct (merge_pend now w fid txid seg) as [|e0 rest]; [intros H; discriminate H|].
+  cbv beta iota zeta.
+  destruct (snd (do_commit None (new_file w) (mkTx txid true (e0 :: rest)))); [intros H; discriminate H|].
+  intros _ f s Hs. cbn [fst new_file w_disk]. unfold disk_create.
+  destruct (disk_get (w_disk w) (w_maxfid w + 1)); [exact Hs|]. rewrite disk_get_app, Hs. reflexivity.
 Qed.
 
 (** ------------------------------------------------------------------ *)
@@ -677,14 +722,17 @@ Qed.
 (** ------------------------------------------------------------------ *)
 Lemma merge_files_ok : forall fids now w s txid,
   kvrel w s -> MInv w -> (forall k, ~ In (txid + k) (ids_of (recs w))) ->
-  kvrel (merge_files now w fids txid) s /\ MInv (merge_files now w fids txid).
+  kvrel (fst (merge_files now w fids txid)) s /\ MInv (fst (merge_files now w fids txid)).
 Proof.
   induction fids as [|f r IH]; intros now w s txid Hrel HM Hfresh; [split; assumption|].
   cbn [merge_files].
   assert (Hf0 : ~ In txid (ids_of (recs w))) by (rewrite <- (N.add_0_r txid); apply Hfresh).
   destruct (merge_file_minv now w f txid HM Hf0) as [HM' Hsub].
+  pose proof (merge_file_kvrel_corrected now w s f txid Hrel (minv_loc_sound w HM) (minv_latest w HM)) as Hrel'.
+  destruct (merge_file now w f txid) as [w1 ok]. cbn [fst] in *.
+  destruct ok; [|cbn [fst]; split; assumption].
   apply IH.
-  - exact (merge_file_kvrel_corrected now w s f txid Hrel (minv_loc_sound w HM) (minv_latest w HM)).
+  - exact Hrel'.
   - exact HM'.
   - intros k Hin. unfold ids_of in Hin. apply in_map_iff in Hin. destruct Hin as [x [Ex Hx]].
     destruct (Hsub x Hx) as [H|H].
@@ -699,7 +747,7 @@ Proof.
   intros now w s txid0 Hrel HM Hfresh. unfold do_merge.
   destruct (w_closed w); [split; assumption|].
   destruct (disk_fids (w_disk w)) as [|a [|b l]]; [split; assumption|split; assumption|].
-  cbn [fst]. apply merge_files_ok; assumption.
+  apply merge_files_ok; assumption.
 Qed.
 
 (** ------------------------------------------------------------------ *)
@@ -857,13 +905,13 @@ Theorem merge_file_kvrel_as_stated_false :
   ~ (forall now w s fid txid,
        Inv w -> kvrel w s -> idx_on_disk w -> w_tx w = TxNone \/ w_tx w = TxDone ->
        ~ In txid (ids_of (recs w)) ->
-       kvrel (merge_file now w fid txid) s).
+       kvrel (fst (merge_file now w fid txid)) s).
 Proof.
   intros H.
   assert (Hfresh : ~ In 77 (ids_of (recs cx_mw))).
   { vm_compute. intros [X|[X|[]]]; discriminate X. }
   pose proof (H 100 cx_mw cx_s 0 77 cx_inv cx_kvrel cx_on_disk (or_introl eq_refl) Hfresh cx_b) as X.
-  assert (E : ix_kv (w_ix (merge_file 100 cx_mw 0 77)) = [(cx_b, [(cx_k, mkK F_Set 0 0 77 1 0 [x31])])])
+  assert (E : ix_kv (w_ix (fst (merge_file 100 cx_mw 0 77))) = [(cx_b, [(cx_k, mkK F_Set 0 0 77 1 0 [x31])])])
     by (vm_compute; reflexivity).
   rewrite E in X. cbn [alookup] in X. rewrite IndexFacts.bytes_eqb_refl in X.
   destruct X as (_ & _ & _ & X). vm_compute in X. discriminate X.
@@ -925,17 +973,18 @@ Proof.
 Qed.
 
 (** ------------------------------------------------------------------ *)
-(** * FINDING: the modelled Merge ignores a failed rewrite              *)
+(** * A failed rewrite no longer loses data                              *)
 (** ------------------------------------------------------------------ *)
-(** [merge_file] discards the status of its internal [do_commit] and removes
-    the old file unconditionally.  [do_commit] rejects a transaction that
-    holds a record larger than the segment size; this happens to the rewrite
-    transaction as soon as the database was reopened with a smaller segment
-    size than the one its records were written under.  The live records are
-    then neither rewritten nor kept: the in-memory index still answers (so
-    [kvrel] holds, in agreement with the theorems above), but the data is gone
-    from the directory and every key is lost at the next Open.  The history
-    below is made of engine calls only. *)
+(** [do_commit] rejects a transaction that holds a record larger than the
+    segment size; this happens to the rewrite transaction of Merge as soon as
+    the database was reopened with a smaller segment size than the one its
+    records were written under.  The first model of Merge discarded the status
+    of that commit and removed the old file unconditionally: the live records
+    were then neither rewritten nor kept and every key was lost at the next
+    Open (former finding [merge_failed_rewrite_loses_data]).  With the fix
+    "Merge stops when a rewrite transaction fails" [merge_file] keeps the old
+    file and reports the failure ([merge_file_failed_keeps_records] above), and
+    on the very same history (engine calls only) nothing is lost any more. *)
 Definition ov_o50 : opts := mkOpts 0 FileIO FileIO false 50.
 Definition ov_o10 : opts := mkOpts 0 FileIO FileIO false 10.
 Definition ov_calls : list call :=
@@ -949,13 +998,16 @@ Definition ov_get (w : world) : res :=
 Lemma ov_calls_ok : calls_ok 0 (empty_world ov_o50) ov_calls.
 Proof. vm_compute. repeat split; try exact I; [intros []|intros [X|[]]; discriminate X]. Qed.
 
-Example merge_failed_rewrite_loses_data :
+Example merge_failed_rewrite_keeps_data :
   ov_get ov_w0 = REntry [x31] [x76] /\                    (* before Merge: the key is there *)
-  snd (do_merge 0 ov_w0 10) = true /\                     (* Merge reports success *)
-  w_disk ov_w1 = [(2, []); (3, [])] /\                    (* both data files are gone, nothing was rewritten *)
-  ov_get ov_w1 = REntry [x31] [x76] /\                    (* the stale index still answers (mode 0) *)
-  ov_get (do_open ov_o10 (w_disk ov_w1)) = RErr /\        (* after reopen the key is lost *)
-  ov_get (do_open ov_o50 (w_disk ov_w1)) = RErr.
+  snd (do_merge 0 ov_w0 10) = false /\                    (* the rewrite is rejected: Merge reports the failure *)
+  map fst (w_disk ov_w1) = [0; 1; 2] /\                   (* both old data files are still there (2 = the empty new segment) *)
+  disk_get (w_disk ov_w1) 0 = disk_get (w_disk ov_w0) 0 /\ (* ... with their contents *)
+  disk_get (w_disk ov_w1) 1 = disk_get (w_disk ov_w0) 1 /\
+  recs ov_w1 = recs ov_w0 /\                              (* the log holds exactly the same records *)
+  ov_get ov_w1 = REntry [x31] [x76] /\                    (* the key is still read *)
+  ov_get (do_open ov_o10 (w_disk ov_w1)) = REntry [x31] [x76] /\   (* and still found after a reopen *)
+  ov_get (do_open ov_o50 (w_disk ov_w1)) = REntry [x31] [x76].
 Proof. vm_compute. repeat split; reflexivity. Qed.
 
 (** ------------------------------------------------------------------ *)
@@ -1208,45 +1260,54 @@ Proof.
 Qed.
 
 Theorem merge_file_w2 : forall now w fid txid,
-  W2 w -> ~ In txid (ids_of (recs w)) -> W2 (merge_file now w fid txid).
+  W2 w -> ~ In txid (ids_of (recs w)) -> W2 (fst (merge_file now w fid txid)).
 Proof.
   intros now w fid txid HW Hfresh. rewrite merge_file_eq.
   destruct (disk_get (w_disk w) fid) as [seg|] eqn:Eseg; [|exact HW].
   assert (Hfid : fid <= w_maxfid w).
   { destruct HW as (HM & _). apply (mi_max w HM). exact (disk_get_some_in _ _ _ Eseg). }
   destruct (merge_pend now w fid txid seg) as [|e0 rest] eqn:Epend.
-  - destruct (fid =? w_maxfid w) eqn:E; [exact HW|]. apply drop_file_w2; [exact HW|lia].
-  - destruct (new_file_w2 w HW) as [(HM1 & Hwf1 & Hoff1) Hrecs1].
+  - cbn [fst]. destruct (fid =? w_maxfid w) eqn:E; [exact HW|]. apply drop_file_w2; [exact HW|lia].
+  - cbv beta iota zeta. destruct (new_file_w2 w HW) as [(HM1 & Hwf1 & Hoff1) Hrecs1].
     destruct (commit_minv (new_file w) (mkTx txid true (e0 :: rest)) HM1) as (HM2 & _ & Hmono).
     + cbn [tx_id]. rewrite Hrecs1. exact Hfresh.
     + cbn [tx_id tx_pend]. rewrite <- Epend. apply Forall_forall. intros e He.
       exact (merge_pend_txid _ _ _ _ _ _ He).
     + destruct (commit_wf (new_file w) (mkTx txid true (e0 :: rest)) HM1 Hwf1 Hoff1) as [Hwf2 Hoff2].
-      cbn [new_file w_maxfid] in Hmono. apply drop_file_w2; [split; [exact HM2|split; assumption]|lia].
+      cbn [new_file w_maxfid] in Hmono.
+      destruct (do_commit None (new_file w) (mkTx txid true (e0 :: rest))) as [w2 ok].
+      cbn [fst snd] in *. destruct ok; cbn [fst].
+      * apply drop_file_w2; [split; [exact HM2|split; assumption]|lia].
+      * split; [exact HM1|split; assumption].
 Qed.
 
-Lemma merge_file_tx : forall now w fid txid, w_tx (merge_file now w fid txid) = w_tx w.
+Lemma merge_file_tx : forall now w fid txid, w_tx (fst (merge_file now w fid txid)) = w_tx w.
 Proof.
   intros now w fid txid. rewrite merge_file_eq. destruct (disk_get (w_disk w) fid); [|reflexivity].
-  destruct (merge_pend now w fid txid s); [destruct (fid =? w_maxfid w)|]; reflexivity.
+  destruct (merge_pend now w fid txid s); [cbn [fst]; destruct (fid =? w_maxfid w); reflexivity|].
+  cbv beta iota zeta. destruct (snd (do_commit None (new_file w) (mkTx txid true (e :: l)))); reflexivity.
 Qed.
 
 Lemma merge_files_w2 : forall fids now w txid,
   W2 w -> (forall k, ~ In (txid + k) (ids_of (recs w))) ->
-  W2 (merge_files now w fids txid) /\ w_tx (merge_files now w fids txid) = w_tx w.
+  W2 (fst (merge_files now w fids txid)) /\ w_tx (fst (merge_files now w fids txid)) = w_tx w.
 Proof.
   induction fids as [|f r IH]; intros now w txid HW Hfresh; [split; [exact HW|reflexivity]|].
   cbn [merge_files].
   assert (Hf0 : ~ In txid (ids_of (recs w))) by (rewrite <- (N.add_0_r txid); apply Hfresh).
   destruct HW as (HM & Hrest).
   destruct (merge_file_minv now w f txid HM Hf0) as [_ Hsub].
-  destruct (IH now (merge_file now w f txid) (txid + 1)) as [A B].
-  - exact (merge_file_w2 now w f txid (conj HM Hrest) Hf0).
+  pose proof (merge_file_w2 now w f txid (conj HM Hrest) Hf0) as HW1.
+  pose proof (merge_file_tx now w f txid) as Htx1.
+  destruct (merge_file now w f txid) as [w1 ok]. cbn [fst] in *.
+  destruct ok; [|cbn [fst]; split; assumption].
+  destruct (IH now w1 (txid + 1)) as [A B].
+  - exact HW1.
   - intros k Hin. unfold ids_of in Hin. apply in_map_iff in Hin. destruct Hin as [x [Ex Hx]].
     destruct (Hsub x Hx) as [H|H].
     + apply (Hfresh (1 + k)). unfold ids_of. apply in_map_iff. exists x. split; [lia|exact H].
     + lia.
-  - split; [exact A|]. rewrite B. apply merge_file_tx.
+  - split; [exact A|]. rewrite B. exact Htx1.
 Qed.
 
 (** Merge keeps [WInv] (it is run outside any transaction) *)
@@ -1256,7 +1317,7 @@ Theorem do_merge_winv : forall now w txid0,
 Proof.
   intros now w txid0 HW Htx Hfresh. unfold do_merge.
   destruct (w_closed w); [exact HW|].
-  destruct (disk_fids (w_disk w)) as [|a [|b l]]; [exact HW|exact HW|]. cbn [fst].
+  destruct (disk_fids (w_disk w)) as [|a [|b l]]; [exact HW|exact HW|].
   destruct (merge_files_w2 (a :: b :: l) now w txid0 (wi_w2 w HW) Hfresh) as [A B].
   constructor; [exact A|]. rewrite B. destruct Htx as [E|E]; rewrite E; exact I.
 Qed.
